@@ -8,6 +8,7 @@ mod gen;
 mod gspec;
 mod model;
 mod props;
+mod rtree;
 mod run;
 mod tape;
 
